@@ -96,3 +96,63 @@ Definition CFOrientation_get_out_degree (self_graph_graph : dictD) (self_out_deg
   else
   match d_find vertex self_out_degree with None => PyExn tt | Some t1_ =>
   PyOk (t1_) end.
+
+(* chipfiring/CFOrientation.py :: CFOrientation.get_orientation   reads ['self_graph_graph', 'self_orientation'], writes [], may raise *)
+Definition CFOrientation_get_orientation (self_graph_graph : dictD) (self_orientation : dictD) (v1_name : nat) (v2_name : nat) : pyres (unit) (option (nat * nat)) :=
+  let v1 := v1_name in
+  let v2 := v2_name in
+  if ((negb (d_mem v1 self_graph_graph)) || (negb (d_mem v2 self_graph_graph))) then
+  PyExn tt
+  else
+  match d_find v1 self_graph_graph with None => PyExn tt | Some t1_ =>
+  if (negb (d_mem v2 t1_)) then
+  PyExn tt
+  else
+  match d_find v1 self_orientation with None => PyExn tt | Some t2_ =>
+  match d_find v2 t2_ with None => PyExn tt | Some t3_ =>
+  let state := t3_ in
+  if (state =? 0) then
+  PyOk (None)
+  else
+  if (state =? 1) then
+  PyOk (Some (v1_name, v2_name))
+  else
+  PyOk (Some (v2_name, v1_name)) end end end.
+
+(* chipfiring/CFOrientation.py :: CFOrientation.is_source   reads ['self_graph_graph', 'self_orientation'], writes [], may raise *)
+Definition CFOrientation_is_source (self_graph_graph : dictD) (self_orientation : dictD) (vertex_name : nat) (neighbor_name : nat) : pyres (unit) (option bool) :=
+  let vertex := vertex_name in
+  let neighbor := neighbor_name in
+  if ((negb (d_mem vertex self_graph_graph)) || (negb (d_mem neighbor self_graph_graph))) then
+  PyExn tt
+  else
+  match d_find vertex self_graph_graph with None => PyExn tt | Some t1_ =>
+  if (negb (d_mem neighbor t1_)) then
+  PyExn tt
+  else
+  match d_find vertex self_orientation with None => PyExn tt | Some t2_ =>
+  match d_find neighbor t2_ with None => PyExn tt | Some t3_ =>
+  let state := t3_ in
+  if (state =? 0) then
+  PyOk (None)
+  else
+  PyOk (Some (state =? 1)) end end end.
+
+(* chipfiring/CFOrientation.py :: CFOrientation.is_sink   reads ['self_graph_graph', 'self_orientation'], writes [], may raise *)
+Definition CFOrientation_is_sink (self_graph_graph : dictD) (self_orientation : dictD) (vertex_name : nat) (neighbor_name : nat) : pyres (unit) (option bool) :=
+  let vertex := vertex_name in
+  let neighbor := neighbor_name in
+  if ((negb (d_mem vertex self_graph_graph)) || (negb (d_mem neighbor self_graph_graph))) then
+  PyExn tt
+  else
+  match d_find vertex self_graph_graph with None => PyExn tt | Some t1_ =>
+  if (negb (d_mem neighbor t1_)) then
+  PyExn tt
+  else
+  match d_find vertex self_orientation with None => PyExn tt | Some t2_ =>
+  match d_find neighbor t2_ with None => PyExn tt | Some t3_ =>
+  let state := t3_ in
+  if (state =? 0) then
+  PyOk (None)
+  else
+  PyOk (Some (state =? 2)) end end end.
